@@ -320,4 +320,45 @@ example :
     rawL (nexts 2 (Tokenizer.newFragment #[97, 60, 98, 62] [])) = [60, 98, 62] := by
   decide +kernel
 
+/-! ### the attribute list of a tag token under prefix extension and restart -/
+
+/-- **prefix stability of `tag_attr()`**: if the `n`-th `next()` did not hit the end of the data and returned a start /
+self-closing tag, then on EVERY extension of the input the same call returns a tag with the same attribute spans, and
+the first `tag_attr()` returns the same key / value / has-more (by `tagAttr_sim` the same holds for every further call) -/
+theorem tag_attr_prefix_stable (bytes ext : Array Nat) (ctx : List Nat) (n : Nat) (hn : 0 < n)
+    (hne : (nexts n (Tokenizer.newFragment bytes ctx)).err = false)
+    (hk : (nexts n (Tokenizer.newFragment bytes ctx)).token = .startTag ∨
+      (nexts n (Tokenizer.newFragment bytes ctx)).token = .selfClosing) :
+    Sav 0 (nexts n (extend (Tokenizer.newFragment bytes ctx) ext)) (nexts n (Tokenizer.newFragment bytes ctx)) ∧
+    (tagAttr (nexts n (extend (Tokenizer.newFragment bytes ctx) ext))).1 =
+      (tagAttr (nexts n (Tokenizer.newFragment bytes ctx))).1 := by
+  have inv := newFragment_inv bytes ctx
+  have s := nexts_simA n _ _ (pre_extend (Tokenizer.newFragment bytes ctx) ext) inv (Or.inr hne) hn
+  have htl : isTagLike (nexts n (Tokenizer.newFragment bytes ctx)).token = true := by
+    rcases hk with h | h <;> rw [h] <;> rfl
+  have sv := s.2 htl
+  obtain ⟨m, rfl⟩ : ∃ m, n = m + 1 := ⟨n - 1, by omega⟩
+  have sp := next_spans _ (nexts_inv m _ inv)
+  have ha : AttrsOk (nexts (m + 1) (Tokenizer.newFragment bytes ctx)) := (sp.attrs hk).1
+  exact ⟨sv, (tagAttr_sim s.1.1.toPre sv ha s.1.2).1⟩
+
+/-- **restart and `tag_attr()`**: after a restart at a token boundary (any context) a tag token has the attribute spans
+of the continued tokenizer shifted by the restart position, and `tag_attr()` returns the same -/
+theorem tag_attr_restart (bytes : Array Nat) (ctx : List Nat) (k n : Nat) (hn : 0 < n)
+    (herr : (nexts k (Tokenizer.newFragment bytes ctx)).err = false)
+    (hk : (nexts n (restartCtx (nexts k (Tokenizer.newFragment bytes ctx)))).token = .startTag ∨
+      (nexts n (restartCtx (nexts k (Tokenizer.newFragment bytes ctx)))).token = .selfClosing) :
+    (tagAttr (nexts n (nexts k (Tokenizer.newFragment bytes ctx)))).1 =
+      (tagAttr (nexts n (restartCtx (nexts k (Tokenizer.newFragment bytes ctx))))).1 := by
+  have inv := nexts_inv k _ (newFragment_inv bytes ctx)
+  have hc := raw_tag_is_context bytes ctx k
+  have s := nexts_restart_ctxA n _ inv herr hc hn
+  have htl : isTagLike (nexts n (restartCtx (nexts k (Tokenizer.newFragment bytes ctx)))).token = true := by
+    rcases hk with h | h <;> rw [h] <;> rfl
+  have sv := s.2 htl
+  obtain ⟨m, rfl⟩ : ∃ m, n = m + 1 := ⟨n - 1, by omega⟩
+  have sp := next_spans _ (nexts_inv m _ (restartCtx_inv _ inv hc))
+  have ha : AttrsOk (nexts (m + 1) (restartCtx (nexts k (Tokenizer.newFragment bytes ctx)))) := (sp.attrs hk).1
+  exact (tagAttr_sim s.1.1.toPre sv ha s.1.2).1
+
 end Rio.C16
